@@ -147,12 +147,13 @@ SUITES.update({"SYSTEM-G": system_suite("generic"), "SYSTEM-T": system_suite("ty
 
 # drivers (impl -> spec): name -> dict(trace module, calls per tier, extra args, processes)
 CORPUS = ["--corpus", "/repo/xtask/src/generate_tests/test-suite-data.json",
-          "--corpus", "/repo/xtask/src/generate_tests/phylum-test-suite-data.json"]
+          "--corpus", "/repo/xtask/src/generate_tests/phylum-test-suite-data.json",
+          "--corpus", "/repo/purl/src", "--corpus", "/repo/README.md"]
 DRIVERS = {
     "garbage": dict(trace="Trace_Stateless", quick=1500, thorough=60000,
                     describe="random separator-heavy strings (raw and escaped separators, invalid UTF-8 escapes, non-ASCII), parsed by String and Purl"),
     "corpus": dict(trace="Trace_Stateless", quick=1200, thorough=40000, extra=CORPUS,
-                   describe="the 58 conformance strings + 7 seeds, mutated (delete/insert token, swap, escape toggle, case toggle, look-alike substitution, appended component)"),
+                   describe="the 58 conformance strings, every PURL literal of the repository's unit tests and doc examples, and 7 seeds: as they are, with every single look-alike substitution, and mutated (delete/insert token, swap, escape toggle, case toggle, look-alike substitution, appended component)"),
     "scalars": dict(trace="Trace_Stateless", quick=1500, thorough=1114112,
                     describe="Unicode scalar values (boundaries + seeded sample; thorough: every scalar value) in a nuget name (escaped), a pypi name (raw) and a generic name"),
     "builder-ops": dict(trace="Trace_Stateless", quick=2500, thorough=80000,
